@@ -70,3 +70,10 @@ func TestUnescape(t *testing.T) {
 		t.Fatal("bare = accepted")
 	}
 }
+
+// RFC 2195 section 2 example
+func TestCramMD5Vector(t *testing.T) {
+	if got := CramDigest("tanstaaftanstaaf", "<1896.697170952@postoffice.reston.mci.net>"); got != "b913a602c7eda7a495b4e6e7334d3890" {
+		t.Fatalf("digest %s", got)
+	}
+}
